@@ -41,10 +41,12 @@ class Custom(Exception):
 
 
 def anchors():
-    import simfile
-    from simfile.base import BaseSimfile
+    from ..core import pick
 
-    return {"mutate": simfile.mutate.__wrapped__, "BaseSimfile.serialize": BaseSimfile.serialize}
+    return pick(
+        "simfile:mutate",
+        "simfile.base:BaseSimfile.serialize",
+    )
 
 
 def base_configs():
@@ -235,24 +237,16 @@ def run(base, fault, want_lines=False):
 
 
 def save_codes():
-    import simfile
-    from simfile.base import BaseCharts, BaseSimfile
-    from simfile.sm import SMChart
-    from simfile.ssc import SSCChart
+    """Failpoint targets for the save sequence: every function of the modules involved (public or private)."""
+    from ..core import module_codes
 
-    return [simfile.mutate.__wrapped__.__code__, BaseSimfile.serialize.__code__, BaseCharts.serialize.__code__,
-            SMChart.serialize.__code__, SSCChart.serialize.__code__]
+    return module_codes("simfile", "simfile.base", "simfile.sm", "simfile.ssc", "simfile._private.serializable")
 
 
 def load_codes():
-    import simfile
-    from simfile.base import BaseSimfile
-    from simfile.sm import SMChart, SMSimfile
-    from simfile.ssc import SSCSimfile
+    from ..core import module_codes
 
-    return [simfile.mutate.__wrapped__.__code__, simfile.open_with_detected_encoding.__code__, simfile.load.__code__,
-            simfile._detect_ssc.__code__, BaseSimfile.__init__.__code__, SMSimfile._parse.__code__, SSCSimfile._parse.__code__,
-            SMChart._from_msd.__code__]
+    return module_codes("simfile", "simfile.base", "simfile.sm", "simfile.ssc")
 
 
 def make_exc(name):
